@@ -90,6 +90,24 @@ Fixpoint wf_layers (l : list layer) (b : base) : Prop :=
   | LLim n :: r => wf_layers r b
   end.
 
+Lemma dropN_app_le n (d x : bytes) : blen d <= n -> dropN n (d ++ x) = dropN (n - blen d) x.
+Proof.
+  intros H. rewrite !dropN_skipn.
+  replace (N.to_nat n) with (length d + N.to_nat (n - blen d))%nat by (unfold blen in *; lia).
+  apply skipn_length_plus.
+Qed.
+
+(* what lies beyond each LimitedReader's limit: untouched by anything read through it *)
+Fixpoint beyonds (l : list layer) (b : base) : list bytes :=
+  match l with
+  | [] => []
+  | LBuf _ _ _ :: r => beyonds r b
+  | LLim n :: r => dropN n (den r b) :: beyonds r b
+  end.
+
+Definition lkind (x : layer) : bool := match x with LBuf _ _ _ => true | LLim _ => false end.
+Definition lsize (x : layer) : N := match x with LBuf size _ _ => size | LLim _ => 0 end.
+
 (* fewer than 100 consecutive empty reads anywhere in the script (bufio's ErrNoProgress rule) *)
 Fixpoint zrun (l : list N) : nat := match l with 0 :: r => S (zrun r) | _ => O end.
 Fixpoint stall_free (l : list N) : Prop :=
@@ -113,14 +131,18 @@ Record read_post (l : list layer) (b : base) (k : N) (d : bytes) (e : option ioe
   rp_weof : b_weof b' = b_weof b;
   rp_sizes : b_sizes b' = b_sizes b \/ b_sizes b' = tl (b_sizes b);
   rp_zero : d = [] -> e = None -> exists r, b_sizes b = 0 :: r /\ b_sizes b' = r;
-  rp_depth : length l' = length l }.
+  rp_depth : length l' = length l;
+  rp_kinds : map lkind l' = map lkind l /\ map lsize l' = map lsize l;
+  rp_beyond : beyonds l' b' = beyonds l b }.
 
 Ltac rp_easy := first [ reflexivity | assumption | discriminate | (left; reflexivity) | (right; reflexivity)
                        | (cbn; lia) | (intros; discriminate)
                        | (let y := fresh "y" in let Hy := fresh "Hy" in
                           intros y Hy; injection Hy as <-; split; [first [reflexivity|assumption]|first [trivial|assumption]])
+                       | (split; reflexivity)
+                       | (match goal with K : map lkind _ = _ /\ _ |- _ /\ _ => destruct K as [? ?]; split; cbn [map lkind lsize]; congruence end)
                        | idtac ].
-Ltac rp_split := apply Build_read_post; cbn [den wf_layers app length b_data b_sizes b_term b_weof base_with]; rp_easy.
+Ltac rp_split := apply Build_read_post; cbn [den wf_layers app length b_data b_sizes b_term b_weof base_with beyonds map lkind lsize]; rp_easy.
 
 Lemma base_read_spec b k d e b' : 0 < k -> base_read b k = (d, e, b') -> read_post [] b k d e [] b'.
 Proof.
@@ -155,10 +177,10 @@ Proof.
            split; [assumption|]. split; [intros ? ?; discriminate|assumption].
         -- destruct (N.leb_spec size k) as [Hle|Hgt].
            ++ destruct (rread r b k) as [[[d0 e0] r0] b0] eqn:Er. injection H as <- <- <- <-.
-              destruct (IH _ _ _ _ _ _ Hk Hwr Er) as [D L W E T We S Z Len]. rp_split.
+              destruct (IH _ _ _ _ _ _ Hk Hwr Er) as [D L W E T We S Z Len Kd By]. rp_split.
               split; [assumption|]. split; [intros ? ?; discriminate|assumption].
            ++ destruct (rread r b size) as [[[d0 e0] r0] b0] eqn:Er.
-              destruct (IH _ _ _ _ _ _ Hsz Hwr Er) as [D L W E T We S Z Len].
+              destruct (IH _ _ _ _ _ _ Hsz Hwr Er) as [D L W E T We S Z Len Kd By].
               destruct d0 as [|y d0].
               ** injection H as <- <- <- <-. rp_split.
                  split; [assumption|]. split; [intros ? ?; discriminate|assumption].
@@ -181,9 +203,10 @@ Proof.
         intros y Hy. injection Hy as <-. rewrite takeN_0. split; reflexivity.
       * destruct (rread r b (N.min k n)) as [[[d0 e0] r0] b0] eqn:Er. injection H as <- <- <- <-.
         assert (Hk' : 0 < N.min k n) by lia.
-        destruct (IH _ _ _ _ _ _ Hk' Hwf Er) as [D L W E T We S Z Len]. rp_split.
+        destruct (IH _ _ _ _ _ _ Hk' Hwf Er) as [D L W E T We S Z Len Kd By]. rp_split.
         -- rewrite D. apply takeN_app_le. lia.
         -- intros y Hy. destruct (E y Hy) as [E1 E2]. rewrite E1, takeN_nil. split; [reflexivity|assumption].
+        -- f_equal; [|assumption]. rewrite D. symmetry. apply dropN_app_le. lia.
 Qed.
 
 Definition wf_reader (r : reader) : Prop := wf_layers (ls r) (bs r) /\ stall_free (b_sizes (bs r)).
@@ -200,13 +223,14 @@ Record rd_post (r : reader) (k : N) (d : bytes) (e : option ioerr) (r' : reader)
   rq_sizes : (length (b_sizes (bs r')) <= length (b_sizes (bs r)))%nat;
   rq_zero : d = [] -> e = None -> (length (b_sizes (bs r')) < length (b_sizes (bs r)))%nat /\
                                   zrun (b_sizes (bs r)) = S (zrun (b_sizes (bs r')));
-  rq_depth : length (ls r') = length (ls r) }.
+  rq_kinds : map lkind (ls r') = map lkind (ls r) /\ map lsize (ls r') = map lsize (ls r);
+  rq_beyond : beyonds (ls r') (bs r') = beyonds (ls r) (bs r) }.
 
 Lemma rd_read_spec r k d e r' : 0 < k -> wf_reader r -> rd_read r k = (d, e, r') -> rd_post r k d e r'.
 Proof.
   intros Hk [Hw Hs] H. unfold rd_read in H.
   destruct (rread (ls r) (bs r) k) as [[[d0 e0] l0] b0] eqn:Er. injection H as <- <- <-.
-  destruct (rread_spec _ _ _ _ _ _ _ Hk Hw Er) as [D L W E T We S Z Len].
+  destruct (rread_spec _ _ _ _ _ _ _ Hk Hw Er) as [D L W E T We S Z Len Kd By].
   apply Build_rd_post; unfold rden, wf_reader; cbn [ls bs]; try assumption.
   - split; [assumption|]. eapply sizes_step_stall; eassumption.
   - destruct S as [-> | ->]; [lia|]. destruct (b_sizes (bs r)); cbn; lia.
@@ -217,17 +241,22 @@ Qed.
 (* io.ReadFull                                                      *)
 (* ---------------------------------------------------------------- *)
 Definition same_shape (r r' : reader) : Prop :=
-  b_term (bs r') = b_term (bs r) /\ length (ls r') = length (ls r) /\
+  b_term (bs r') = b_term (bs r) /\
+  (map lkind (ls r') = map lkind (ls r) /\ map lsize (ls r') = map lsize (ls r)) /\
+  beyonds (ls r') (bs r') = beyonds (ls r) (bs r) /\
   (length (b_sizes (bs r')) <= length (b_sizes (bs r)))%nat.
 
 Lemma same_shape_refl r : same_shape r r.
 Proof. unfold same_shape. auto. Qed.
 
 Lemma same_shape_trans a b c : same_shape a b -> same_shape b c -> same_shape a c.
-Proof. unfold same_shape. intros (A1 & A2 & A3) (B1 & B2 & B3). repeat split; try congruence. lia. Qed.
+Proof.
+  unfold same_shape. intros (A1 & (A2 & A2') & A3 & A4) (B1 & (B2 & B2') & B3 & B4).
+  split; [congruence|]. split; [split; congruence|]. split; [congruence|lia].
+Qed.
 
 Lemma rd_post_shape r k d e r' : rd_post r k d e r' -> same_shape r r'.
-Proof. intros [D L W E T S Z Dp]. unfold same_shape. auto. Qed.
+Proof. intros [D L W E T S Z Kd By]. unfold same_shape. auto. Qed.
 
 (* the error class of a short read: io.EOF only if nothing at all was there and the transport ended cleanly *)
 Definition short_class {A} (x : dres A) (avail : bytes) (term : ioerr) : Prop :=
@@ -249,7 +278,7 @@ Proof.
   - destruct (rd_read r need) as [[d e] r1] eqn:Er.
     assert (Hk: 0 < need) by lia.
     pose proof (rd_read_spec _ _ _ _ _ Hk Hw Er) as P. pose proof (rd_post_shape _ _ _ _ _ P) as Sh.
-    destruct P as [D L W E T S Z Dp].
+    destruct P as [D L W E T S Z Kd By].
     destruct e as [y|].
     + (* terminal error came with this read *)
       destruct (E y eq_refl) as [Hnil Hy]. rewrite Hnil, app_nil_r in D.
@@ -304,7 +333,8 @@ Record fill_post (l : list layer) (b : base) (d : bytes) (e : option ioerr) (l' 
   fp_err : forall x, e = Some x -> den l' b' = [] /\ (b_term b = EOF -> x = EOF);
   fp_some : e = None -> d <> [];
   fp_term : b_term b' = b_term b;
-  fp_depth : length l' = length l;
+  fp_kinds : map lkind l' = map lkind l /\ map lsize l' = map lsize l;
+  fp_beyond : beyonds l' b' = beyonds l b;
   fp_sizes : (length (b_sizes b') <= length (b_sizes b))%nat }.
 
 Lemma fill_loop_spec i : forall l b size d e l' b',
@@ -313,7 +343,7 @@ Lemma fill_loop_spec i : forall l b size d e l' b',
 Proof.
   induction i as [|j IH]; intros l b size d e l' b' Hs Hw Hsf Hz H; [lia|].
   cbn [fill_loop] in H. destruct (rread l b size) as [[[d0 e0] l0] b0] eqn:Er.
-  destruct (rread_spec _ _ _ _ _ _ _ Hs Hw Er) as [D L W E T We S Z Len].
+  destruct (rread_spec _ _ _ _ _ _ _ Hs Hw Er) as [D L W E T We S Z Len Kd By].
   assert (Hsf0: stall_free (b_sizes b0)) by (eapply sizes_step_stall; eassumption).
   assert (Hlen0: (length (b_sizes b0) <= length (b_sizes b))%nat).
   { destruct S as [-> | ->]; [lia|]. destruct (b_sizes b); cbn; lia. }
@@ -322,10 +352,12 @@ Proof.
   - destruct d0 as [|z q].
     + destruct (Z eq_refl eq_refl) as (rs & Z1 & Z2).
       assert (Hz': (zrun (b_sizes b0) < j)%nat) by (rewrite Z1 in Hz; rewrite Z2; cbn in Hz; lia).
-      destruct (IH _ _ _ _ _ _ _ Hs W Hsf0 Hz' H) as [D' W' S' E' N' T' L' Z'].
+      destruct (IH _ _ _ _ _ _ _ Hs W Hsf0 Hz' H) as [D' W' S' E' N' T' [K1' K2'] By' Z'].
+      destruct Kd as [K1 K2].
       apply Build_fill_post; try assumption; try congruence; try lia.
       * rewrite D. cbn [app]. assumption.
       * intros x0 Hx. destruct (E' x0 Hx) as [E1 E2]. split; [assumption|]. intros Ht. apply E2. congruence.
+      * split; congruence.
     + injection H as <- <- <- <-. apply Build_fill_post; try assumption; try discriminate.
 Qed.
 
@@ -353,27 +385,27 @@ Proof.
   destruct buf as [|y buf].
   - destruct err as [e0|].
     + injection H as <- <-. destruct (Herr e0 eq_refl) as [Hd He].
-      apply Build_rb_post; unfold rden, wf_reader, same_shape; rewrite ?El; cbn [ls bs den wf_layers length app].
+      apply Build_rb_post; unfold rden, wf_reader, same_shape; rewrite ?El; cbn [ls bs den wf_layers length app beyonds map lkind lsize].
       * split; [|assumption]. split; [assumption|]. split; [intros ? ?; discriminate|assumption].
       * auto.
       * rewrite Hd. split; [|reflexivity]. apply short_class_eclass. assumption.
     + destruct (fill_loop 100 l (bs r) size) as [[[d e] l0] b0] eqn:Ef.
-      destruct (fill_loop_spec _ _ _ _ _ _ _ _ Hsz Hwl Hsf (stall_free_zrun _ Hsf) Ef) as [D W S E N T L Z].
+      destruct (fill_loop_spec _ _ _ _ _ _ _ _ Hsz Hwl Hsf (stall_free_zrun _ Hsf) Ef) as [D W S E N T [K1 K2] By Z].
       destruct d as [|z q].
       * destruct e as [e0|]; [|exfalso; apply (N eq_refl); reflexivity].
         injection H as <- <-. destruct (E e0 eq_refl) as [E1 E2].
-        apply Build_rb_post; unfold rden, wf_reader, same_shape; rewrite ?El; cbn [ls bs den wf_layers length app].
+        apply Build_rb_post; unfold rden, wf_reader, same_shape; rewrite ?El; cbn [ls bs den wf_layers length app beyonds map lkind lsize].
         -- split; [|assumption]. split; [assumption|]. split; [intros ? ?; discriminate|assumption].
-        -- repeat split; [assumption|lia|assumption].
+        -- split; [assumption|]. split; [split; congruence|]. split; assumption.
         -- rewrite D, E1. cbn [app]. split; [|reflexivity]. apply short_class_eclass. assumption.
       * injection H as <- <-.
-        apply Build_rb_post; unfold rden, wf_reader, same_shape; rewrite ?El; cbn [ls bs den wf_layers length app].
+        apply Build_rb_post; unfold rden, wf_reader, same_shape; rewrite ?El; cbn [ls bs den wf_layers length app beyonds map lkind lsize].
         -- split; [|assumption]. split; [assumption|]. split; [|assumption].
            intros e0 He0. destruct (E e0 He0) as [E1 E2]. split; [assumption|]. intros Ht. apply E2. congruence.
-        -- repeat split; [assumption|lia|assumption].
+        -- split; [assumption|]. split; [split; congruence|]. split; assumption.
         -- rewrite D. cbn [app]. split; reflexivity.
   - injection H as <- <-.
-    apply Build_rb_post; unfold rden, wf_reader, same_shape; rewrite ?El; cbn [ls bs den wf_layers length app].
+    apply Build_rb_post; unfold rden, wf_reader, same_shape; rewrite ?El; cbn [ls bs den wf_layers length app beyonds map lkind lsize].
     + split; [|assumption]. split; [assumption|]. split; assumption.
     + auto.
     + split; reflexivity.
@@ -404,16 +436,9 @@ Definition rmeasure (r : reader) : nat := (length (rden r) + length (b_sizes (bs
 
 Lemma rd_post_measure r k d e r' : rd_post r k d e r' -> e = None -> (rmeasure r' < rmeasure r)%nat.
 Proof.
-  intros [D L W E T S Z Dp] He. unfold rmeasure. rewrite D, app_length. destruct d as [|z q].
+  intros [D L W E T S Z Kd By] He. unfold rmeasure. rewrite D, app_length. destruct d as [|z q].
   - destruct (Z eq_refl He) as [Z1 _]. cbn [length]. lia.
   - cbn [length]. lia.
-Qed.
-
-Lemma dropN_app_le n (d x : bytes) : blen d <= n -> dropN n (d ++ x) = dropN (n - blen d) x.
-Proof.
-  intros H. rewrite !dropN_skipn.
-  replace (N.to_nat n) with (length d + N.to_nat (n - blen d))%nat by (unfold blen in *; lia).
-  apply skipn_length_plus.
 Qed.
 
 Lemma copy_loop_spec fuel : forall r left cap acc al x r' al',
@@ -438,7 +463,7 @@ Proof.
     assert (Hk: 0 < N.min (cap' - len) left) by (unfold min_read in Hcap; lia).
     pose proof (rd_read_spec _ _ _ _ _ Hk Hw Er) as P. pose proof (rd_post_shape _ _ _ _ _ P) as Sh.
     pose proof (rd_post_measure _ _ _ _ _ P) as Hm.
-    destruct P as [D L W E T S Z Dp].
+    destruct P as [D L W E T S Z Kd By].
     destruct e as [y|].
     + destruct (E y eq_refl) as [Hnil Hy]. rewrite Hnil, app_nil_r in D.
       assert (Hres: (x, r', al') = (if left - blen d =? 0 then Ok (acc ++ d) else eclass y, r1, al1)).
@@ -485,7 +510,7 @@ Proof.
     assert (Hk: 0 < N.min discard_buf left) by (unfold discard_buf; lia).
     pose proof (rd_read_spec _ _ _ _ _ Hk Hw Er) as P. pose proof (rd_post_shape _ _ _ _ _ P) as Sh.
     pose proof (rd_post_measure _ _ _ _ _ P) as Hm.
-    destruct P as [D L W E T S Z Dp].
+    destruct P as [D L W E T S Z Kd By].
     destruct e as [y|].
     + destruct (E y eq_refl) as [Hnil Hy]. rewrite Hnil, app_nil_r in D.
       assert (Hres: (x, r') = (if left - blen d =? 0 then Ok tt else eclass y, r1)).
@@ -512,4 +537,688 @@ Lemma discard_spec p r x r' : wf_reader r -> discard p r = (x, r') ->
   (blen (rden r) < p -> copy_class x (b_term (bs r)) /\ rden r' = []).
 Proof.
   intros Hw H. unfold discard in H. apply discard_loop_spec in H; [exact H|assumption|unfold rmeasure; lia].
+Qed.
+
+(* ================================================================ *)
+(* the decoder on reader objects simulates the flat decoder          *)
+(* ================================================================ *)
+Definition flat (s : cstate) : dstate := {| rest := rden (rd s); last := clast s |}.
+
+Definition scannable (r : reader) : Prop := match ls r with LLim _ :: _ => False | _ => True end.
+
+Definition wf_c (s : cstate) : Prop := wf_reader (rd s) /\ scannable (rd s).
+Definition cshape (s s' : cstate) : Prop := same_shape (rd s) (rd s').
+
+Lemma shape_scannable r r' : same_shape r r' -> scannable r -> scannable r'.
+Proof.
+  unfold same_shape, scannable. intros (_ & (K & _) & _) H.
+  destruct (ls r) as [|[? ? ?|?] ?], (ls r') as [|[? ? ?|?] ?]; cbn in *; try discriminate; auto.
+Qed.
+
+Lemma cshape_refl s : cshape s s.
+Proof. apply same_shape_refl. Qed.
+Lemma cshape_trans a b c : cshape a b -> cshape b c -> cshape a c.
+Proof. apply same_shape_trans. Qed.
+
+Definition strip {A} (fr : dres (A * dstate)) : dres A :=
+  match fr with Ok (a, _) => Ok a | ErrEOF => ErrEOF | Err => Err | OutOfFuel => OutOfFuel end.
+
+Record sim_post {A} (s : cstate) (x : dres A) (s' : cstate) (fr : dres (A * dstate)) : Prop := {
+  sp_ok : forall a, x = Ok a -> exists st', fr = Ok (a, st') /\ flat s' = st' /\ wf_c s' /\ cshape s s';
+  sp_eof : b_term (bs (rd s)) = EOF -> x = strip fr;
+  sp_fuel : x = OutOfFuel -> fr = OutOfFuel;
+  sp_eofres : x = ErrEOF -> fr = ErrEOF }.
+
+Definition sim {A} (m : M A) (f : dstate -> dres (A * dstate)) : Prop :=
+  forall s x s', wf_c s -> m s = (x, s') -> sim_post s x s' (f (flat s)).
+
+Lemma sim_ext {A} (m : M A) f g : (forall st, f st = g st) -> sim m f -> sim m g.
+Proof. intros E H s x s' Hw Hm. rewrite <- E. apply H; assumption. Qed.
+
+Lemma sim_ret {A} (a : A) : sim (mret a) (fun st => Ok (a, st)).
+Proof.
+  intros s x s' Hw H. unfold mret in H. injection H as <- <-. split.
+  - intros a0 E. injection E as <-. exists (flat s). split; [reflexivity|]. split; [reflexivity|]. split; [assumption|]. apply cshape_refl.
+  - reflexivity.
+  - discriminate.
+  - discriminate.
+Qed.
+
+Lemma sim_fail_err {A} : sim (@mfail A Err) (fun _ => Err).
+Proof. intros s x s' Hw H. unfold mfail in H. injection H as <- <-. split; [discriminate|reflexivity|discriminate|discriminate]. Qed.
+
+Lemma sim_bind {A B} (m1 : M A) (m2 : A -> M B) f1 f2 :
+  sim m1 f1 -> (forall a, sim (m2 a) (f2 a)) ->
+  sim (mbind m1 m2) (fun st => bind (f1 st) (fun p => f2 (fst p) (snd p))).
+Proof.
+  intros H1 H2 s x s' Hw H. unfold mbind in H. destruct (m1 s) as [x1 s1] eqn:E1.
+  destruct (H1 _ _ _ Hw E1) as [O1 F1 U1 V1].
+  destruct x1 as [a| | |].
+  - destruct (O1 a eq_refl) as (st1 & Ef & Efl & Hw1 & Sh1). rewrite Ef. cbn [bind fst snd].
+    destruct (H2 a _ _ _ Hw1 H) as [O2 F2 U2 V2]. rewrite Efl in *. split.
+    + intros b Hb. destruct (O2 b Hb) as (st2 & E2 & Efl2 & Hw2 & Sh2). exists st2.
+      split; [assumption|]. split; [assumption|]. split; [assumption|]. eapply cshape_trans; eassumption.
+    + intros Ht. apply F2. destruct Sh1 as (T & _). congruence.
+    + exact U2.
+    + exact V2.
+  - injection H as <- <-. rewrite (V1 eq_refl). cbn [bind]. split; [discriminate|reflexivity|discriminate|reflexivity].
+  - injection H as <- <-. split; [discriminate| |discriminate|discriminate].
+    intros Ht. specialize (F1 Ht). destruct (f1 (flat s)) as [[? ?]| | |]; cbn in F1; try discriminate. reflexivity.
+  - injection H as <- <-. rewrite (U1 eq_refl). cbn [bind]. split; [discriminate|reflexivity|reflexivity|discriminate].
+Qed.
+
+(* the flat code binds with a pattern: [let* (a, st') := f1 st in f2 a st'] *)
+Lemma sim_bind_pat {A B} (m1 : M A) (m2 : A -> M B) f1 (f2 : A -> dstate -> dres (B * dstate)) :
+  sim m1 f1 -> (forall a, sim (m2 a) (f2 a)) ->
+  sim (mbind m1 m2) (fun st => let* (a, st') := f1 st in f2 a st').
+Proof.
+  intros H1 H2. eapply sim_ext; [|apply (sim_bind m1 m2 f1 f2 H1 H2)].
+  intros st. cbv beta. destruct (f1 st) as [[a st']| | |]; reflexivity.
+Qed.
+
+(* flat operations that only return the next state *)
+Definition lift0 (g : dstate -> dres dstate) : dstate -> dres (unit * dstate) :=
+  fun st => let* st' := g st in Ok (tt, st').
+
+Lemma sim_bind0 {B} (m1 : M unit) (m2 : M B) g (f2 : dstate -> dres (B * dstate)) :
+  sim m1 (lift0 g) -> sim m2 f2 ->
+  sim (mbind m1 (fun _ => m2)) (fun st => let* st' := g st in f2 st').
+Proof.
+  intros H1 H2. eapply sim_ext; [|apply (sim_bind m1 (fun _ => m2) (lift0 g) (fun _ => f2) H1 (fun _ => H2))].
+  intros st. unfold lift0. cbv beta. destruct (g st); reflexivity.
+Qed.
+
+Lemma sim_charge n : sim (charge n) (fun st => Ok (tt, st)).
+Proof.
+  intros s x s' Hw H. unfold charge in H. injection H as <- <-. split.
+  - intros a E. injection E as <-. exists (flat s). split; [reflexivity|]. split; [reflexivity|]. split; [exact Hw|]. apply same_shape_refl.
+  - reflexivity.
+  - discriminate.
+  - discriminate.
+Qed.
+
+Lemma sim_charge_then {B} n (m : M B) f : sim m f -> sim (let^ _ := charge n in m) f.
+Proof.
+  intros H. eapply sim_ext; [|apply (sim_bind (charge n) (fun _ => m) _ (fun _ => f) (sim_charge n) (fun _ => H))].
+  intros st. reflexivity.
+Qed.
+
+Lemma sim_charge_fail {A} n : sim (let^ _ := charge n in @mfail A Err) (fun _ => Err).
+Proof. apply sim_charge_then. apply sim_fail_err. Qed.
+
+(* ---------------- primitive operations ---------------- *)
+Lemma flat_with_rd s r a : flat {| rd := r; clast := clast s; alloc := a |} = {| rest := rden r; last := clast s |}.
+Proof. reflexivity. Qed.
+
+Lemma wf_c_step s r' a : wf_c s -> wf_reader r' -> same_shape (rd s) r' ->
+  wf_c {| rd := r'; clast := clast s; alloc := a |}.
+Proof. intros [_ Hs] Hw Sh. split; [exact Hw|]. eapply shape_scannable; eassumption. Qed.
+
+Lemma read_n_flat k st : (k <= length (rest st))%nat ->
+  read_n k st = Ok (firstn k (rest st), {| rest := skipn k (rest st); last := last st |}).
+Proof. intros H. unfold read_n. destruct (Nat.leb_spec k (length (rest st))); [reflexivity|lia]. Qed.
+
+Lemma sim_read_nN n : sim (c_read_n n) (read_nN n).
+Proof.
+  intros s x s' Hw H. unfold c_read_n in H. destruct (readfull n (rd s)) as [x0 r'] eqn:Er.
+  injection H as <- <-. destruct Hw as [Hwr Hsc].
+  destruct (readfull_spec _ _ _ _ Hwr Er) as (W & Sh & Hok & Hshort).
+  unfold read_nN, flat; cbn [rest last rd clast].
+  destruct (N.leb_spec n (blen (rden (rd s)))) as [Hle|Hgt].
+  - destruct (Hok Hle) as [-> Hd]. rewrite read_n_flat by (cbn [rest]; unfold blen in Hle; lia). cbn [rest last].
+    split.
+    + intros a E. injection E as <-. eexists. split; [rewrite takeN_firstn; reflexivity|].
+      split; [unfold flat; cbn [rd clast]; rewrite Hd, dropN_skipn; reflexivity|]. split; [apply wf_c_step; [split|..]; assumption|exact Sh].
+    + intros _. rewrite takeN_firstn. reflexivity.
+    + discriminate.
+    + discriminate.
+  - destruct (Hshort Hgt) as [Hc Hn]. destruct Hc as (Hc1 & Hc2 & Hc3). split.
+    + intros a E. destruct Hc1 as [-> | ->]; discriminate.
+    + intros Ht. rewrite (Hc3 Ht). destruct (rden (rd s)); reflexivity.
+    + intros E. destruct Hc1 as [Hc1|Hc1]; rewrite Hc1 in E; discriminate.
+    + intros E. rewrite (Hc2 E). reflexivity.
+Qed.
+
+Lemma read_nN_of_nat k st : read_nN (N.of_nat k) st = read_n k st.
+Proof.
+  unfold read_nN, read_n. rewrite Nat2N.id.
+  destruct (N.leb_spec (N.of_nat k) (blen (rest st))), (Nat.leb_spec k (length (rest st))); try reflexivity; unfold blen in *; lia.
+Qed.
+
+Lemma sim_read_n k : sim (c_read_n (N.of_nat k)) (read_n k).
+Proof. eapply sim_ext; [|apply sim_read_nN]. intros st. apply read_nN_of_nat. Qed.
+
+Lemma sim_copy l : sim (c_copy l) (copy_nN l).
+Proof.
+  intros s x s' Hw H. unfold c_copy in H. destruct (copy_buf l (rd s)) as [[x0 r'] al] eqn:Er.
+  injection H as <- <-. destruct Hw as [Hwr Hsc].
+  destruct (copy_buf_spec _ _ _ _ _ Hwr Er) as (W & Sh & Hok & Hshort).
+  unfold copy_nN, flat; cbn [rest last rd clast].
+  destruct (N.leb_spec l (blen (rden (rd s)))) as [Hle|Hgt].
+  - destruct (Hok Hle) as [-> Hd]. rewrite read_n_flat by (cbn [rest]; unfold blen in Hle; lia). cbn [rest last].
+    split.
+    + intros a E. injection E as <-. eexists. split; [rewrite takeN_firstn; reflexivity|].
+      split; [unfold flat; cbn [rd clast]; rewrite Hd, dropN_skipn; reflexivity|]. split; [apply wf_c_step; [split|..]; assumption|exact Sh].
+    + intros _. rewrite takeN_firstn. reflexivity.
+    + discriminate.
+    + discriminate.
+  - destruct (Hshort Hgt) as [Hc Hn]. destruct Hc as (Hc1 & Hc2). split.
+    + intros a E. destruct Hc1 as [-> | ->]; discriminate.
+    + intros Ht. rewrite (Hc2 Ht). reflexivity.
+    + intros E. destruct Hc1 as [Hc1|Hc1]; rewrite Hc1 in E; discriminate.
+    + reflexivity.
+Qed.
+
+(* the skip path's io.CopyN(ioutil.Discard, ..) *)
+Definition flat_discard (p : N) (st : dstate) : dres (unit * dstate) :=
+  if N.leb p (blen (rest st)) then Ok (tt, {| rest := dropN p (rest st); last := last st |}) else ErrEOF.
+
+Lemma sim_discard p : sim (c_discard p) (flat_discard p).
+Proof.
+  intros s x s' Hw H. unfold c_discard in H. destruct (discard p (rd s)) as [x0 r'] eqn:Er.
+  injection H as <- <-. destruct Hw as [Hwr Hsc].
+  destruct (discard_spec _ _ _ _ Hwr Er) as (W & Sh & Hok & Hshort).
+  unfold flat_discard, flat; cbn [rest last rd clast].
+  destruct (N.leb_spec p (blen (rden (rd s)))) as [Hle|Hgt].
+  - destruct (Hok Hle) as [-> Hd]. split.
+    + intros a E. injection E as <-. eexists. split; [reflexivity|].
+      split; [unfold with_rd, flat; cbn [rd clast]; rewrite Hd; reflexivity|].
+      split; [apply wf_c_step; [split|..]; assumption|exact Sh].
+    + reflexivity.
+    + discriminate.
+    + discriminate.
+  - destruct (Hshort Hgt) as [Hc Hn]. destruct Hc as (Hc1 & Hc2). split.
+    + intros a E. destruct Hc1 as [-> | ->]; discriminate.
+    + intros Ht. rewrite (Hc2 Ht). reflexivity.
+    + intros E. destruct Hc1 as [Hc1|Hc1]; rewrite Hc1 in E; discriminate.
+    + reflexivity.
+Qed.
+
+(* ReadByte, as the flat model reads one byte *)
+Lemma readbyte_any_spec r x r' : wf_reader r -> scannable r -> readbyte r = (x, r') -> rb_post r x r'.
+Proof.
+  intros Hw Hsc H. destruct (ls r) as [|ly l] eqn:El.
+  - destruct (readbyte_base_spec _ _ _ El H) as (L' & T' & S' & Hres).
+    apply Build_rb_post.
+    + destruct Hw as [_ Hsf]. split; [rewrite L'; exact I|rewrite S'; exact Hsf].
+    + unfold same_shape. rewrite L', El, S'. cbn. auto.
+    + destruct (rden r); [|exact Hres]. destruct Hres as [-> Hn]. split; [|exact Hn].
+      unfold short_class. auto.
+  - apply readbyte_spec; try assumption.
+    + rewrite El. discriminate.
+    + intros n l0 E. unfold scannable in Hsc. rewrite E in Hsc. exact Hsc.
+Qed.
+
+Lemma sim_read_byte : sim c_read_byte (fun st => let* (b, st') := read_n 1 st in
+                                            match b with [y] => Ok (y, st') | _ => Err end).
+Proof.
+  intros s x s' Hw H. unfold c_read_byte in H. destruct (readbyte (rd s)) as [x0 r'] eqn:Er.
+  injection H as <- <-. destruct Hw as [Hwr Hsc].
+  destruct (readbyte_any_spec _ _ _ Hwr Hsc Er) as [W Sh Hres].
+  unfold flat, read_n; cbn [rest last rd clast].
+  destruct (rden (rd s)) as [|y q] eqn:Ed.
+  - cbn [length Nat.leb bind]. destruct Hres as [Hc Hn]. destruct Hc as (Hc1 & Hc2 & Hc3). split.
+    + intros a E. destruct Hc1 as [Hc1|Hc1]; rewrite Hc1 in E; discriminate.
+    + intros Ht. rewrite (Hc3 Ht). reflexivity.
+    + intros E. destruct Hc1 as [Hc1|Hc1]; rewrite Hc1 in E; discriminate.
+    + reflexivity.
+  - destruct Hres as [-> Hd]. cbn [length Nat.leb firstn skipn bind]. split.
+    + intros a E. injection E as <-. eexists. split; [reflexivity|].
+      split; [unfold with_rd, flat; cbn [rd clast]; rewrite Hd; reflexivity|].
+      split; [apply wf_c_step; [split|..]; assumption|exact Sh].
+    + reflexivity.
+    + discriminate.
+    + discriminate.
+Qed.
+
+(* ---------------- the readers of decode.go ---------------- *)
+Lemma sim_read_num k : sim (c_read_num (N.of_nat k)) (read_num k).
+Proof.
+  unfold c_read_num, read_num. apply sim_bind_pat; [apply sim_read_n|]. intros b. apply sim_ret.
+Qed.
+
+Lemma unbe_single y : unbe [y] 0 = b2n y.
+Proof. cbn [unbe]. lia. Qed.
+
+Lemma sim_read_type : sim c_read_type (read_num 1).
+Proof.
+  unfold c_read_type.
+  eapply sim_ext; [|apply (sim_bind_pat c_read_byte (fun x => mret (b2n x)) _ (fun y st' => Ok (b2n y, st')) sim_read_byte)].
+  - intros st. unfold read_num, read_n.
+    destruct (Nat.leb_spec 1 (length (rest st))) as [Hle|Hgt].
+    + destruct (rest st) as [|y q]; [cbn in Hle; lia|]. change (firstn 1 (y :: q)) with [y]. cbn [bind]. rewrite unbe_single. reflexivity.
+    + destruct (rest st); reflexivity.
+  - intros y. apply sim_ret.
+Qed.
+
+Lemma sim_iread_tag : sim c_iread_tag iread_tag.
+Proof. apply (sim_read_num 3). Qed.
+
+Lemma sim_read_tag : sim c_read_tag read_tag.
+Proof.
+  intros s x s' Hw H. unfold c_read_tag in H. unfold read_tag. cbn [flat last rest].
+  destruct (negb (clast s =? 0)) eqn:En.
+  - injection H as <- <-. split.
+    + intros a E. injection E as <-. eexists. split; [reflexivity|]. split; [reflexivity|]. split; [exact Hw|apply same_shape_refl].
+    + reflexivity.
+    + discriminate.
+    + discriminate.
+  - apply (sim_iread_tag _ _ _ Hw H).
+Qed.
+
+Lemma sim_set_last t : sim (c_set_last t) (fun st => Ok (tt, {| rest := rest st; last := t |})).
+Proof.
+  intros s x s' Hw H. unfold c_set_last in H. injection H as <- <-. split.
+  - intros a E. injection E as <-. eexists. split; [reflexivity|]. split; [reflexivity|]. split; [exact Hw|apply same_shape_refl].
+  - reflexivity.
+  - discriminate.
+  - discriminate.
+Qed.
+
+Lemma sim_peek_tag : sim c_peek_tag peek_tag.
+Proof.
+  intros s x s' Hw H. unfold c_peek_tag in H. unfold peek_tag. cbn [flat last rest].
+  destruct (negb (clast s =? 0)) eqn:En.
+  - injection H as <- <-. split.
+    + intros a E. injection E as <-. eexists. split; [reflexivity|]. split; [reflexivity|]. split; [exact Hw|apply cshape_refl].
+    + reflexivity.
+    + discriminate.
+    + discriminate.
+  - assert (S: sim (let^ t := c_iread_tag in let^ _ := c_set_last t in mret t)
+                   (fun st => let* (t, s1) := iread_tag st in Ok (t, {| rest := rest s1; last := t |}))).
+    { apply sim_bind_pat; [apply sim_iread_tag|]. intros t.
+      eapply sim_ext; [|apply (sim_bind (c_set_last t) (fun _ => mret t) _ (fun _ st => Ok (t, st)) (sim_set_last t) (fun _ => sim_ret t))].
+      intros st. reflexivity. }
+    exact (S _ _ _ Hw H).
+Qed.
+
+Lemma sim_expect_tag t : sim (c_expect_tag t) (lift0 (expect_tag t)).
+Proof.
+  unfold c_expect_tag.
+  eapply sim_ext; [|apply (sim_bind_pat c_read_tag _ read_tag
+     (fun t' st' => if negb (t =? t') && negb (t =? ANY_TAG) then Err else Ok (tt, st')) sim_read_tag)].
+  - intros st. unfold lift0, expect_tag. destruct (read_tag st) as [[t' st']| | |]; cbn [bind]; try reflexivity.
+    destruct (negb (t =? t') && negb (t =? ANY_TAG)); reflexivity.
+  - intros t'. destruct (negb (t =? t') && negb (t =? ANY_TAG)); [apply sim_charge_fail|apply sim_ret].
+Qed.
+
+Lemma sim_expect_numlike (m : M N) k v : sim m (read_num k) ->
+  sim (let^ x := m in if x =? v then mret tt else (let^ _ := charge K_ERR in mfail Err)) (lift0 (expect_num k v)).
+Proof.
+  intros Hm.
+  eapply sim_ext; [|apply (sim_bind_pat m _ (read_num k) (fun x st' => if x =? v then Ok (tt, st') else Err) Hm)].
+  - intros st. unfold lift0, expect_num. destruct (read_num k st) as [[x st']| | |]; cbn [bind]; try reflexivity.
+    destruct (x =? v); reflexivity.
+  - intros x. destruct (x =? v); [apply sim_ret|apply sim_charge_fail].
+Qed.
+
+Lemma sim_expect_type v : sim (c_expect_type v) (lift0 (expect_num 1 v)).
+Proof. apply sim_expect_numlike. apply sim_read_type. Qed.
+
+Lemma sim_expect_len v : sim (c_expect_len v) (lift0 (expect_num 4 v)).
+Proof. apply sim_expect_numlike. apply (sim_read_num 4). Qed.
+
+(* ---------------- items ---------------- *)
+Lemma sim_pad l : sim (if pad8 l =? 0 then mret [] else c_read_n (pad8 l)) (read_nN (pad8 l)).
+Proof.
+  destruct (N.eqb_spec (pad8 l) 0) as [E|N0]; [|apply sim_read_nN].
+  rewrite E. eapply sim_ext; [|apply (sim_ret (A:=bytes) [])].
+  intros [r la]. unfold read_nN, read_n. cbn [rest last]. destruct (N.leb_spec 0 (blen r)); [reflexivity|lia].
+Qed.
+
+Lemma sim_dec_prim k tag : sim (c_dec_prim k tag) (dec_prim k tag).
+Proof.
+  unfold c_dec_prim, dec_prim.
+  apply sim_bind0; [apply sim_expect_tag|].
+  apply sim_bind0; [apply sim_expect_type|].
+  destruct k.
+  - (* int *) apply sim_bind0; [apply sim_expect_len|]. apply sim_bind_pat; [apply (sim_read_n 8)|].
+    intros b. apply sim_charge_then. apply (sim_ret (VInt (of_u32 (unbe (firstn 4 b) 0)), 16)).
+  - (* long *) apply sim_bind0; [apply sim_expect_len|]. apply sim_bind_pat; [apply (sim_read_n 8)|].
+    intros b. apply sim_charge_then. apply (sim_ret (VLong (of_u64 (unbe b 0)), 16)).
+  - (* enum *) apply sim_bind0; [apply sim_expect_len|]. apply sim_bind_pat; [apply (sim_read_n 8)|].
+    intros b. apply sim_charge_then. apply (sim_ret (VEnum (unbe (firstn 4 b) 0), 16)).
+  - (* bool *) apply sim_bind0; [apply sim_expect_len|]. apply sim_bind_pat; [apply (sim_read_n 8)|].
+    intros b. destruct (all_zero (firstn 7 b)); [|apply sim_charge_fail].
+    destruct (skipn 7 b) as [|y [|? ?]]; try apply sim_charge_fail.
+    destruct (Byte.eqb y x01); [apply (sim_ret (VBool true, 16))|].
+    destruct (Byte.eqb y x00); [apply (sim_ret (VBool false, 16))|apply sim_charge_fail].
+  - (* bytes *) apply sim_bind_pat; [apply (sim_read_num 4)|]. intros l.
+    apply sim_bind_pat; [apply sim_copy|]. intros b.
+    apply sim_bind_pat; [apply sim_pad|]. intros p.
+    apply sim_charge_then. apply (sim_ret (VBytes b, 8 + l + pad8 l)).
+  - (* string *) apply sim_bind_pat; [apply (sim_read_num 4)|]. intros l.
+    apply sim_bind_pat; [apply sim_copy|]. intros b.
+    apply sim_bind_pat; [apply sim_pad|]. intros p.
+    apply sim_charge_then. apply (sim_ret (VStr b, 8 + l + pad8 l)).
+  - (* time *) apply sim_bind0; [apply sim_expect_len|]. apply sim_bind_pat; [apply (sim_read_n 8)|].
+    intros b. apply sim_charge_then. apply (sim_ret (VTime (of_u64 (unbe b 0)), 16)).
+  - (* duration *) apply sim_bind0; [apply sim_expect_len|]. apply sim_bind_pat; [apply (sim_read_n 8)|].
+    intros b. apply sim_charge_then. apply (sim_ret (VDur (Z.of_N (unbe (firstn 4 b) 0) * nanos)%Z, 16)).
+Qed.
+
+Lemma sim_dec_skip tag : sim (c_dec_skip tag) (dec_skip tag).
+Proof.
+  unfold c_dec_skip.
+  eapply sim_ext; [|apply (sim_bind0 (c_expect_tag tag) _ (expect_tag tag)
+     (fun s1 => let* (_, s2) := read_num 1 s1 in let* (l, s3) := read_num 4 s2 in
+                let* (_, s4) := flat_discard (padded l) s3 in Ok (8 + padded l, s4)) (sim_expect_tag tag))].
+  - intros st. unfold dec_skip. destruct (expect_tag tag st) as [s1| | |]; cbn [bind]; try reflexivity.
+    unfold read_num at 1. destruct (read_n 1 s1) as [[b s2]| | |]; cbn [bind]; try reflexivity.
+    destruct (read_num 4 s2) as [[l s3]| | |]; cbn [bind]; try reflexivity.
+    unfold flat_discard. destruct (N.leb (padded l) (blen (rest s3))); reflexivity.
+  - apply sim_bind_pat; [apply sim_read_type|]. intros ty.
+    apply sim_bind_pat; [apply (sim_read_num 4)|]. intros l.
+    apply sim_bind_pat; [apply sim_discard|]. intros u. apply (sim_ret (8 + padded l)).
+Qed.
+
+Lemma sim_wrapped {A} (m : M A) f : sim m f -> sim (c_wrapped m) (fun st => wrapped (f st)).
+Proof.
+  intros Hm s x s' Hw H. unfold c_wrapped in H. destruct (m s) as [x0 s0] eqn:E.
+  destruct (Hm _ _ _ Hw E) as [O F U V].
+  destruct x0 as [a| | |]; injection H as <- <-.
+  - destruct (O a eq_refl) as (st' & Ef & Efl & Hw' & Sh). rewrite Ef. cbn [wrapped]. split.
+    + intros a0 Ea. injection Ea as <-. exists st'. auto.
+    + reflexivity.
+    + discriminate.
+    + discriminate.
+  - rewrite (V eq_refl). cbn [wrapped]. split; [discriminate|reflexivity|discriminate|discriminate].
+  - split; [discriminate| |discriminate|discriminate].
+    intros Ht. specialize (F Ht). destruct (f (flat s)) as [[? ?]| | |]; cbn in F; try discriminate. reflexivity.
+  - rewrite (U eq_refl). cbn [wrapped]. split; [discriminate|reflexivity|reflexivity|discriminate].
+Qed.
+
+Lemma sim_slice_loop (step : M (val * N)) (fstep : dstate -> dres (val * N * dstate)) tag skip explen :
+  sim step fstep ->
+  forall fuel actual nsum acc,
+    sim (c_slice_loop fuel step tag skip explen actual nsum acc)
+        (fun dd => slice_loop fuel fstep tag skip explen dd actual nsum acc).
+Proof.
+  intros Hs. induction fuel as [|f IH]; intros actual nsum acc.
+  - cbn [c_slice_loop slice_loop]. intros s x s' Hw H. unfold mfail in H. injection H as <- <-.
+    split; [discriminate|reflexivity|reflexivity|discriminate].
+  - cbn [c_slice_loop slice_loop].
+    apply sim_bind_pat; [apply sim_wrapped; exact Hs|]. intros [v nn].
+    apply sim_charge_then.
+    destruct (explen <=? (actual + nn) mod 2 ^ 32).
+    + apply (sim_ret (if skip then acc else vl_snoc acc v, (actual + nn) mod 2 ^ 32, nsum + nn)).
+    + apply sim_bind_pat; [apply sim_peek_tag|]. intros t.
+      destruct (t =? tag).
+      * apply IH.
+      * apply (sim_ret (if skip then acc else vl_snoc acc v, (actual + nn) mod 2 ^ 32, nsum + nn)).
+Qed.
+
+(* ---------------- structures: the nested decoder ---------------- *)
+Lemma sim_bind_pat_P {A B} (P : A -> Prop) (m1 : M A) (m2 : A -> M B) f1 (f2 : A -> dstate -> dres (B * dstate)) :
+  sim m1 f1 -> (forall st a st', f1 st = Ok (a, st') -> P a) -> (forall a, P a -> sim (m2 a) (f2 a)) ->
+  sim (mbind m1 m2) (fun st => let* (a, st') := f1 st in f2 a st').
+Proof.
+  intros H1 HP H2 s x s' Hw H. unfold mbind in H. destruct (m1 s) as [x1 s1] eqn:E1.
+  destruct (H1 _ _ _ Hw E1) as [O1 F1 U1 V1].
+  destruct x1 as [a| | |].
+  - destruct (O1 a eq_refl) as (st1 & Ef & Efl & Hw1 & Sh1). rewrite Ef. cbn [bind].
+    destruct (H2 a (HP _ _ _ Ef) _ _ _ Hw1 H) as [O2 F2 U2 V2]. rewrite Efl in *. split.
+    + intros b Hb. destruct (O2 b Hb) as (st2 & E2 & Efl2 & Hw2 & Sh2). exists st2.
+      split; [assumption|]. split; [assumption|]. split; [assumption|]. eapply cshape_trans; eassumption.
+    + intros Ht. apply F2. destruct Sh1 as (T & _). congruence.
+    + exact U2.
+    + exact V2.
+  - injection H as <- <-. rewrite (V1 eq_refl). cbn [bind]. split; [discriminate|reflexivity|discriminate|reflexivity].
+  - injection H as <- <-. split; [discriminate| |discriminate|discriminate].
+    intros Ht. specialize (F1 Ht). destruct (f1 (flat s)) as [[? ?]| | |]; cbn in F1; try discriminate. reflexivity.
+  - injection H as <- <-. rewrite (U1 eq_refl). cbn [bind]. split; [discriminate|reflexivity|reflexivity|discriminate].
+Qed.
+
+(* a structure accepted by the flat decoder used up its whole region, and the region was all there *)
+Lemma fields_full_consumption fl len (R : bytes) cur vs nsum dd' :
+  len < 2 ^ 32 ->
+  dec_fields fl O len {| rest := takeN len R; last := 0 |} 0 0 cur = Ok (vs, len, nsum, dd') ->
+  dd' = {| rest := []; last := 0 |} /\ len <= blen R.
+Proof.
+  intros Hlen H.
+  assert (Hl0: lastok {| rest := takeN len R; last := 0 |}) by (unfold lastok; cbn [last]; lia).
+  assert (Hinv: 0 + blen (logical {| rest := takeN len R; last := 0 |}) <= len).
+  { rewrite logical_fresh, takeN_blen. lia. }
+  destruct (proj1 (proj2 decoder_sound) fl O len _ 0 0 cur vs len nsum dd' Hl0 Hlen Hinv H)
+    as (n & d & Hb & Ha & Hn & Hl' & _).
+  rewrite logical_fresh, takeN_blen in Hb.
+  assert (Hnil: logical dd' = []) by (apply blen_0_nil; lia).
+  split; [apply logical_nil; exact Hnil|lia].
+Qed.
+
+Lemma nested_shape_inv l3 b3 len r' :
+  same_shape {| ls := LBuf 4096 [] None :: LLim len :: l3; bs := b3 |} r' ->
+  exists sz buf err n' l'',
+    ls r' = LBuf sz buf err :: LLim n' :: l'' /\
+    same_shape {| ls := l3; bs := b3 |} {| ls := l''; bs := bs r' |} /\
+    dropN n' (den l'' (bs r')) = dropN len (den l3 b3).
+Proof.
+  unfold same_shape. cbn [ls bs map lkind lsize beyonds]. intros (T & (K1 & K2) & By & Sz).
+  destruct (ls r') as [|[sz buf err|n0] [|[sz1 buf1 err1|n'] l'']]; cbn [map lkind lsize beyonds] in *; try discriminate.
+  exists sz, buf, err, n', l''. injection K1 as K1. injection K2 as _ K2. injection By as By1 By2.
+  split; [reflexivity|]. split; [|exact By1]. auto.
+Qed.
+
+Definition S_fl (fl : flist) : Prop := forall i explen actual nsum cur,
+  sim (c_dec_fields fl i explen actual nsum cur) (fun dd => dec_fields fl i explen dd actual nsum cur).
+
+Lemma sim_struct_body ty fl len : len < 2 ^ 32 -> S_fl fl ->
+  sim (fun s3 : cstate =>
+         match c_dec_fields fl O len 0 0 (zeros_of fl) (push_nested len s3) with
+         | (Ok (vs, actual, nsum), dd) =>
+             let s4 := pop_nested (clast s3) dd in
+             if actual =? len then (Ok (VStruct ty vs, 8 + nsum), s4)
+             else (Err, {| rd := rd s4; clast := clast s4; alloc := alloc s4 + K_ERR |})
+         | (ErrEOF, dd) => (ErrEOF, pop_nested (clast s3) dd)
+         | (Err, dd) => (Err, pop_nested (clast s3) dd)
+         | (OutOfFuel, dd) => (OutOfFuel, pop_nested (clast s3) dd)
+         end)
+      (fun s3 => let dd := {| rest := takeN len (rest s3); last := 0 |} in
+                 let* (vs, actual, nsum, _) := dec_fields fl O len dd 0 0 (zeros_of fl) in
+                 if actual =? len
+                 then Ok (VStruct ty vs, 8 + nsum, {| rest := dropN len (rest s3); last := last s3 |})
+                 else Err).
+Proof.
+  intros Hlen IH s3 x s' Hw H. cbv zeta.
+  set (n0 := push_nested len s3) in *.
+  assert (Hw0: wf_c n0).
+  { destruct Hw as [[Hwl Hsf] Hsc]. unfold n0, push_nested, wf_c, wf_reader, scannable. cbn [rd ls bs wf_layers].
+    split; [split; [|exact Hsf]|exact I]. split; [lia|]. split; [intros e He; discriminate|exact Hwl]. }
+  assert (Hfl0: flat n0 = {| rest := takeN len (rest (flat s3)); last := 0 |}) by reflexivity.
+  destruct (c_dec_fields fl O len 0 0 (zeros_of fl) n0) as [xf dd] eqn:Ef.
+  destruct (IH O len 0 0 (zeros_of fl) _ _ _ Hw0 Ef) as [O F U V]. rewrite Hfl0 in *.
+  assert (Ht0: b_term (bs (rd n0)) = b_term (bs (rd s3))) by reflexivity.
+  destruct xf as [[[vs actual] nsum]| | |].
+  - destruct (O _ eq_refl) as (st' & Efr & Efl & Hwd & Shd). rewrite Efr. cbn [bind].
+    destruct (N.eqb_spec actual len) as [Ea|Na]; injection H as <- <-.
+    + subst actual. destruct (fields_full_consumption _ _ _ _ _ _ _ Hlen Efr) as [Est Hle]. rewrite Est in Efl, Efr.
+      unfold cshape, n0, push_nested in Shd. cbn [rd] in Shd.
+      destruct (nested_shape_inv _ _ _ _ Shd) as (sz & buf & err & n' & l'' & El & Sh3 & Hdrop).
+      (* nothing is left in the nested reader: its buffer is empty and the limit is used up (or the source is) *)
+      assert (Hden: buf ++ takeN n' (den l'' (bs (rd dd))) = []).
+      { unfold flat, rden in Efl. rewrite El in Efl. cbn [den] in Efl. injection Efl as Hr _. exact Hr. }
+      apply app_eq_nil in Hden. destruct Hden as [Hbuf Htk].
+      assert (Hrest: den l'' (bs (rd dd)) = dropN len (rden (rd s3))).
+      { destruct (N.eq_dec n' 0) as [->|Nn].
+        - unfold rden. rewrite <- Hdrop. rewrite dropN_skipn. reflexivity.
+        - assert (Hdn: den l'' (bs (rd dd)) = []).
+          { apply blen_0_nil. apply (f_equal blen) in Htk. rewrite takeN_blen, blen_nil in Htk. lia. }
+          unfold rden. rewrite Hdn in *. rewrite dropN_all in Hdrop by (cbn; lia). exact Hdrop. }
+      split.
+      * intros a Ea. injection Ea as <-. eexists. split; [reflexivity|].
+        assert (Hls4: ls (rd (pop_nested (clast s3) dd)) = l'') by (unfold pop_nested; cbn [rd ls]; rewrite El; reflexivity).
+        split; [|split].
+        -- unfold flat, rden. rewrite Hls4. unfold pop_nested at 1 2. cbn [rd bs clast]. rewrite Hrest. reflexivity.
+        -- destruct Hwd as [[Hwl Hsf] _]. rewrite El in Hwl. cbn [wf_layers] in Hwl.
+           split; [split|].
+           ++ rewrite Hls4. unfold pop_nested. cbn [rd bs]. apply Hwl.
+           ++ exact Hsf.
+           ++ destruct Hw as [_ Hsc]. eapply shape_scannable; [|exact Hsc].
+              unfold pop_nested. cbn [rd ls]. rewrite El. cbn [tl]. destruct (rd s3). exact Sh3.
+        -- unfold cshape, pop_nested. cbn [rd ls]. rewrite El. cbn [tl]. destruct (rd s3). exact Sh3.
+      * reflexivity.
+      * discriminate.
+      * discriminate.
+    + split; [discriminate|reflexivity|discriminate|discriminate].
+  - injection H as <- <-. rewrite (V eq_refl). cbn [bind]. split; [discriminate|reflexivity|discriminate|reflexivity].
+  - injection H as <- <-. split; [discriminate| |discriminate|discriminate].
+    intros Ht. rewrite <- Ht0 in Ht. specialize (F Ht).
+    destruct (dec_fields fl 0 len _ 0 0 (zeros_of fl)) as [[? ?]| | |]; cbn in F; try discriminate. reflexivity.
+  - injection H as <- <-. rewrite (U eq_refl). cbn [bind]. split; [discriminate|reflexivity|reflexivity|discriminate].
+Qed.
+
+(* ---------------- the field loop ---------------- *)
+Lemma sim_post_from {A} s s1 (x : dres A) s' fr : cshape s s1 -> sim_post s1 x s' fr -> sim_post s x s' fr.
+Proof.
+  intros Sh [O F U V]. split; [| |exact U|exact V].
+  - intros a Ea. destruct (O a Ea) as (st' & E1 & E2 & E3 & E4). exists st'.
+    split; [assumption|]. split; [assumption|]. split; [assumption|]. eapply cshape_trans; eassumption.
+  - intros Ht. apply F. destruct Sh as (T & _). congruence.
+Qed.
+
+Lemma peek_eof_state dd dd1 : wf_c dd -> c_peek_tag dd = (ErrEOF, dd1) ->
+  rden (rd dd) = [] /\ rden (rd dd1) = [] /\ wf_c dd1 /\ cshape dd dd1.
+Proof.
+  intros Hw H. unfold c_peek_tag in H. destruct (negb (clast dd =? 0)); [discriminate|].
+  unfold c_iread_tag, c_read_num, mbind in H.
+  destruct (c_read_n 3 dd) as [x0 d0] eqn:E0.
+  assert (x0 = ErrEOF /\ d0 = dd1) as [-> ->].
+  { destruct x0; cbv [mret c_set_last] in H; try discriminate. injection H as <-. auto. }
+  unfold c_read_n in E0. destruct (readfull 3 (rd dd)) as [x1 r'] eqn:Er. injection E0 as -> <-.
+  destruct Hw as [Hwr Hsc]. destruct (readfull_spec _ _ _ _ Hwr Er) as (W & Sh & Hok & Hshort).
+  destruct (N.le_gt_cases 3 (blen (rden (rd dd)))) as [Hle|Hgt].
+  - destruct (Hok Hle) as [E _]. discriminate.
+  - destruct (Hshort Hgt) as [Hc Hn].
+    destruct Hc as (_ & Hc2 & _). split; [exact (Hc2 eq_refl)|]. split; [exact Hn|].
+    split; [apply wf_c_step; [split|..]; assumption|exact Sh].
+Qed.
+
+Lemma sim_fields_cons a s r :
+  (forall a0 cur, sim (c_dec_value s a0 cur) (fun st => dec_value s a0 st cur)) -> S_fl r -> S_fl (FCons a s r).
+Proof.
+  intros Hs Hr i explen actual nsum cur dd x dd' Hw H.
+  cbn [c_dec_fields] in H. cbn [dec_fields].
+  set (item := if fa_skip a then (let^ n := c_dec_skip (fa_tag a) in mret (VNil, n)) else c_dec_value s a cur) in H.
+  set (fitem := fun st : dstate =>
+        if fa_skip a then (let* (n, st') := dec_skip (fa_tag a) st in Ok (VNil, n, st'))
+        else dec_value s a st cur).
+  assert (Hitem: sim item fitem).
+  { unfold item, fitem. destruct (fa_skip a).
+    - apply sim_bind_pat; [apply sim_dec_skip|]. intros n. apply (sim_ret (VNil, n)).
+    - apply Hs. }
+  destruct (c_peek_tag dd) as [xp dd1] eqn:Ep.
+  destruct (sim_peek_tag _ _ _ Hw Ep) as [O F U V].
+  destruct xp as [t| | |].
+  - destruct (O t eq_refl) as (st1 & Efr & Efl & Hw1 & Sh1). rewrite Efr.
+    destruct (negb (fa_req a) && negb (t =? fa_tag a) && negb (fa_tag a =? ANY_TAG)).
+    + apply (sim_post_from _ dd1); [exact Sh1|]. rewrite <- Efl. apply (Hr _ _ _ _ _ _ _ _ Hw1 H).
+    + destruct (fa_slice a).
+      * apply (sim_post_from _ dd1); [exact Sh1|]. rewrite <- Efl.
+        assert (Sm: sim (let^ (es, actual', nsum') :=
+                           c_slice_loop (S (length (rden (rd dd1)))) item (fa_tag a) (fa_skip a) explen actual nsum VNone in
+                         c_dec_fields r (S i) explen actual' nsum' (vl_set i (VList es) cur))
+                        (fun st => let* (es, actual', nsum', dd2) :=
+                                     slice_loop (S (length (rden (rd dd1)))) fitem (fa_tag a) (fa_skip a) explen st actual nsum VNone in
+                                   dec_fields r (S i) explen dd2 actual' nsum' (vl_set i (VList es) cur))).
+        { eapply sim_ext; [|apply (sim_bind_pat _ _ _
+             (fun (p : vlist * N * N) dd2 => dec_fields r (S i) explen dd2 (snd (fst p)) (snd p) (vl_set i (VList (fst (fst p))) cur))
+             (sim_slice_loop item fitem (fa_tag a) (fa_skip a) explen Hitem _ actual nsum VNone))].
+          - intros st. cbv beta. destruct (slice_loop _ _ _ _ _ st _ _ _) as [[[[es a'] n'] d2]| | |]; reflexivity.
+          - intros [[es a'] n']. cbn [fst snd]. apply Hr. }
+        exact (Sm _ _ _ Hw1 H).
+      * apply (sim_post_from _ dd1); [exact Sh1|]. rewrite <- Efl.
+        assert (Sm: sim (let^ (v, nn) := c_wrapped item in
+                         c_dec_fields r (S i) explen ((actual + nn) mod 2 ^ 32) (nsum + nn) (if fa_skip a then cur else vl_set i v cur))
+                        (fun st => let* (v, nn, dd2) := wrapped (fitem st) in
+                                   dec_fields r (S i) explen dd2 ((actual + nn) mod 2 ^ 32) (nsum + nn)
+                                              (if fa_skip a then cur else vl_set i v cur))).
+        { eapply sim_ext; [|apply (sim_bind_pat _ _ _
+             (fun (p : val * N) dd2 => dec_fields r (S i) explen dd2 ((actual + snd p) mod 2 ^ 32) (nsum + snd p)
+                                                  (if fa_skip a then cur else vl_set i (fst p) cur))
+             (sim_wrapped item fitem Hitem))].
+          - intros st. cbv beta. destruct (wrapped (fitem st)) as [[[v nn] d2]| | |]; reflexivity.
+          - intros [v nn]. cbn [fst snd]. apply Hr. }
+        exact (Sm _ _ _ Hw1 H).
+  - (* io.EOF while peeking *)
+    rewrite (V eq_refl).
+    destruct (fa_req a).
+    + injection H as <- <-. split; [discriminate|reflexivity|discriminate|discriminate].
+    + destruct (peek_eof_state _ _ Hw Ep) as (Hd & Hd1 & Hw1 & Sh1).
+      set (d1 := {| rd := rd dd1; clast := 0; alloc := alloc dd1 |}) in H.
+      assert (Hwd1: wf_c d1) by exact Hw1.
+      assert (Hfl: flat d1 = {| rest := rest (flat dd); last := 0 |}).
+      { unfold flat, d1. cbn [rd clast rest]. rewrite Hd, Hd1. reflexivity. }
+      apply (sim_post_from _ d1); [exact Sh1|]. rewrite <- Hfl. apply (Hr _ _ _ _ _ _ _ _ Hwd1 H).
+  - injection H as <- <-. split; [discriminate| |discriminate|discriminate].
+    intros Ht. specialize (F Ht). destruct (peek_tag (flat dd)) as [[? ?]| | |]; cbn in F; try discriminate. reflexivity.
+  - injection H as <- <-. rewrite (U eq_refl). split; [discriminate|reflexivity|reflexivity|discriminate].
+Qed.
+
+(* ---------------- the three mutual functions ---------------- *)
+Definition S_sch (s : sch) : Prop := forall a cur, sim (c_dec_value s a cur) (fun st => dec_value s a st cur).
+Definition S_cs (cs : dcases) : Prop := forall key a, sim (c_dec_cases cs key a) (fun st => dec_cases cs key a st).
+
+Theorem decoder_on_readers : (forall s, S_sch s) /\ (forall fl, S_fl fl) /\ (forall cs, S_cs cs).
+Proof.
+  apply sch_mutind.
+  - (* SPrim *) intros k a cur. cbn [c_dec_value dec_value]. apply sim_dec_prim.
+  - (* SStruct *) intros ty fl IH a cur. cbn [c_dec_value dec_value].
+    apply sim_charge_then.
+    apply sim_bind0; [apply sim_expect_tag|].
+    apply sim_bind0; [apply sim_expect_type|].
+    apply (sim_bind_pat_P (fun len => len < 2 ^ 32)); [apply (sim_read_num 4)| |].
+    + intros st len st' E. apply read_num_inv in E. destruct E as (_ & _ & B). exact B.
+    + intros len Hlen. apply sim_struct_body; assumption.
+  - (* SDyn *) intros holder ki cs IH a cur. cbn [c_dec_value dec_value]. apply IH.
+  - (* FNil *) intros i explen actual nsum cur. cbn [c_dec_fields dec_fields]. apply (sim_ret (cur, actual, nsum)).
+  - (* FCons *) intros a s IHs r IHr. apply sim_fields_cons; assumption.
+  - (* DNil *) intros key a. cbn [c_dec_cases dec_cases]. apply sim_charge_fail.
+  - (* DCase *) intros k s IHs r IHr key a. cbn [c_dec_cases dec_cases].
+    destruct (key_matches k key); [apply sim_charge_then; apply IHs|apply IHr].
+Qed.
+
+(* ================================================================ *)
+(* Decode on any delivery of the bytes                               *)
+(* ================================================================ *)
+Definition transport_ok (b : base) : Prop := stall_free (b_sizes b).
+
+Lemma new_decoder_wf scanner b : transport_ok b -> wf_c (new_decoder scanner b) /\ flat (new_decoder scanner b) = {| rest := b_data b; last := 0 |}.
+Proof.
+  intros H. unfold new_decoder. destruct scanner; unfold wf_c, wf_reader, scannable, flat, rden; cbn [rd ls bs clast den wf_layers app].
+  - auto.
+  - split; [|reflexivity]. split; [|exact I]. split; [|exact H]. split; [lia|]. split; [intros e He; discriminate|exact I].
+Qed.
+
+Lemma new_decoder_bufio_wf size b : 0 < size -> transport_ok b ->
+  wf_c (new_decoder_bufio size b) /\ flat (new_decoder_bufio size b) = {| rest := b_data b; last := 0 |}.
+Proof.
+  intros Hs H. unfold new_decoder_bufio, wf_c, wf_reader, scannable, flat, rden; cbn [rd ls bs clast den wf_layers app].
+  split; [|reflexivity]. split; [|exact I]. split; [|exact H]. split; [exact Hs|]. split; [intros e He; discriminate|exact I].
+Qed.
+
+(* one Decode call on a decoder in any well-formed state *)
+Theorem decode_on_readers ty tag fl s x s' : wf_c s -> c_dec_top ty tag fl s = (x, s') ->
+  sim_post s x s' (dec_top ty tag fl (flat s)).
+Proof. intros Hw H. exact (proj1 decoder_on_readers (SStruct ty fl) (top_attr tag) VNone _ _ _ Hw H). Qed.
+
+(* successive Decode calls on one Decoder: the stream theorem *)
+Definition strip_stream (r : list val * stream_end) : list val * stream_end := r.
+
+Lemma stream_on_readers ty tag fl : forall fuel s vs e s',
+  wf_c s -> b_term (bs (rd s)) = EOF ->
+  c_dec_stream fuel ty tag fl s = (vs, e, s') ->
+  dec_stream fuel ty tag fl (flat s) = (vs, e).
+Proof.
+  induction fuel as [|f IH]; intros s vs e s' Hw Ht H; cbn [c_dec_stream dec_stream] in *.
+  - injection H as <- <- <-. reflexivity.
+  - destruct (c_dec_top ty tag fl s) as [x s1] eqn:E.
+    destruct (decode_on_readers _ _ _ _ _ _ Hw E) as [O F U V]. specialize (F Ht).
+    destruct x as [[v n]| | |].
+    + destruct (O _ eq_refl) as (st' & Efr & Efl & Hw1 & Sh1). rewrite Efr.
+      destruct (c_dec_stream f ty tag fl s1) as [[vs1 e1] s2] eqn:E2. injection H as <- <- <-.
+      assert (Ht1: b_term (bs (rd s1)) = EOF) by (destruct Sh1 as (T & _); congruence).
+      rewrite <- Efl. rewrite (IH _ _ _ _ Hw1 Ht1 E2). reflexivity.
+    + injection H as <- <- <-. destruct (dec_top ty tag fl (flat s)) as [[[? ?] ?]| | |]; cbn in F; try discriminate. reflexivity.
+    + injection H as <- <- <-. destruct (dec_top ty tag fl (flat s)) as [[[? ?] ?]| | |]; cbn in F; try discriminate. reflexivity.
+    + injection H as <- <- <-. destruct (dec_top ty tag fl (flat s)) as [[[? ?] ?]| | |]; cbn in F; try discriminate. reflexivity.
 Qed.
